@@ -339,6 +339,26 @@ pub fn run(args: &Args) -> i32 {
             loc.sample(json!({"string": s, "bytes": hex(s.as_bytes())}));
         }
     });
+    // non-ASCII characters of every case class and width (a predicate like `is_uppercase()` is Unicode-aware; byte
+    // indexing is not): every string of 0..=4 symbols over a 16-symbol alphabet
+    const UNI: [&str; 16] = ["B", "C", "P", "A", "0", "1", "9", "É", "Ω", "Ⓐ", "é", "١", "Ⅷ", "ǅ", "𝐀", "ß"];
+    rep.run("unicode-case-strings", 1 + 16 + 256 + 4096 + 65536, 30, true, "every string of 0..=4 symbols over {B, C, P, A, 0, 1, 9, É, Ω, Ⓐ (3 bytes), é, ١ (Arabic digit), Ⅷ (Roman numeral), ǅ (title case), 𝐀 (4 bytes), ß} into all 13 string parsers", |idx, loc| {
+        let mut x = idx;
+        let mut l = 0usize;
+        let mut block = 1u64;
+        while x >= block {
+            x -= block;
+            block *= 16;
+            l += 1;
+        }
+        let mut s = String::new();
+        for _ in 0..l {
+            s.push_str(UNI[(x % 16) as usize]);
+            x /= 16;
+        }
+        let m = all_name_parsers(&s, loc);
+        loc.note(hash64(&(s.as_bytes(), "uni")), s.len() == 4, if m == 0 { "all-reject" } else { "some-accept" });
+    });
     if thorough {
         rep.run("ascii-4", 128 * 128 * 128, 60, true, "all 128^4 four-byte ASCII strings into all 13 string parsers (one case = 128 strings)", |idx, loc| {
             let mut nt = 0;
